@@ -782,16 +782,16 @@ example (single : Bool) : B2ParOK (exPar single) :=
 /-- a schedule with a duplicated response and a retransmitted request: three requests, one delivery (`+kernel`: the
 kernel evaluates the decision procedure directly; no axioms involved) -/
 example :
-    let evs : List B2Event := [.appGet 0, .reqArrives 0, .rspArrives 0, .reqArrives 1, .rspArrives 1, .rspArrives 1,
-      .reqArrives 1, .reqArrives 2, .rspArrives 3]
+    let evs : List B2Event := [.appGet 0, .reqArrives 0, .rspArrives 0 true, .reqArrives 1, .rspArrives 1 true, .rspArrives 1 true,
+      .reqArrives 1, .reqArrives 2, .rspArrives 3 true]
     let s := evs.foldl (b2Step (exPar true)) {}
     s.outs = [.next 1 0, .next 2 0, .skip, .body (exPar true).body 40] ∧ s.cli = none ∧ s.rsps.length = 4 := by
   decide +kernel
 
 /-- a duplicated FIRST request creates a second lg_xmit with a new ETag: the client restarts and still gets the body -/
 example :
-    let evs : List B2Event := [.appGet 0, .reqArrives 0, .reqArrives 0, .rspArrives 0, .rspArrives 1, .reqArrives 2,
-      .rspArrives 2, .reqArrives 3, .rspArrives 3, .reqArrives 4, .rspArrives 4]
+    let evs : List B2Event := [.appGet 0, .reqArrives 0, .reqArrives 0, .rspArrives 0 true, .rspArrives 1 true, .reqArrives 2,
+      .rspArrives 2 true, .reqArrives 3, .rspArrives 3 true, .reqArrives 4, .rspArrives 4 true]
     let s := evs.foldl (b2Step (exPar true)) {}
     s.outs = [.next 1 0, .restart 0, .next 1 0, .next 2 0, .body (exPar true).body 40] ∧ s.srvEtag = 3 := by
   decide +kernel
@@ -954,6 +954,110 @@ example :
     let s := [B1Event.appPut, .reqArrives 0, .reqArrives 0].foldl (b1Step exPar1s) {}
     s.reqs.map (fun d => (d.num, d.m, d.szx, d.payload.length, d.size1)) = [(0, 0, 0, 40, none)] ∧ s.cli = none ∧
     s.outs = [.deliver exPar1s.body 40, .deliver exPar1s.body 40] ∧ s.srv = none := by
+  decide +kernel
+
+/-! ### RUN-level "at most once" for the composed Block2 system (single-body mode), with a ghost history
+
+`b2StepG` = `b2Step` plus the ghost `g`: the response datagrams the client's lg_crcv has processed since it was last absent
+or (re-)initialised (`initial`: set up by coap_send(), or restarted after an ETag change).  The event `rspArrives j sent` now
+carries the `sent` argument of coap_handle_response_get_block (`crcvStepS`): whether coap_dispatch matched the datagram to a
+Confirmable request still in the send queue.  The schedule picks it freely, so every behaviour of the message layer is
+covered; what the message layer guarantees (a copy of a response whose request has already been answered is NOT matched)
+is outside this model and trace-checked (`xfer` logs the flag). -/
+
+/-- Along EVERY schedule of the composed Block2 system in single-body mode (any loss / duplication / replay / reordering,
+repeated GETs, several lg_xmit incarnations with different ETags and block sizes, time-outs on either side, every choice of
+`sent`), whenever a response arrival makes the client hand a body to the response handler: it is the server's body with its
+exact length, and EVERY byte of it was carried — for exactly that offset — by a response that arrived in the CURRENT epoch,
+i.e. after the lg_crcv was last set up or restarted; the delivery releases the lg_crcv and empties the epoch.  So the number
+of deliveries is at most the number of lg_crcv lifetimes in which a complete set of block responses arrived. -/
+theorem at_most_once_block2_run (P : B2Par) (hP : B2ParOK P) (hs : P.single = true) (evs : List B2Event) (j : Nat)
+    (sent : Bool) (r : Resp) :
+    let sg := evs.foldl (b2StepG P) ({}, [])
+    sg.1.rsps[j]? = some r →
+    ∀ d l, (crcvStepS sent P.single P.cap P.junk sg.1.cli r).2 = CrcvOut.body d l →
+      (d.take l = P.body ∧ l = P.body.length) ∧
+      (∀ o, o < P.body.length → ∃ v, P.body[o]? = some v ∧ SentIn (r :: sg.2) o v) ∧
+      (b2StepG P sg (B2Event.rspArrives j sent)).1.cli = none ∧ (b2StepG P sg (B2Event.rspArrives j sent)).2 = [] := by
+  intro sg hq d l hb
+  obtain ⟨hinv, hgh⟩ := b2RunG_inv P hP hs evs ({}, []) (b2_init_inv P) (b2_init_ghost P)
+  obtain ⟨e1, e2⟩ := b2Step_rsp P sg.1 j sent r hq
+  have hbl : d.take l = P.body ∧ l = P.body.length := by
+    have hnext := b2Step_inv P hP sg.1 (B2Event.rspArrives j sent) hinv
+    exact ((hnext.outs _ (by rw [e2]; exact List.mem_append_right _ List.mem_cons_self)).1 d l hb).2
+  have hb' : (crcvStepS sent true P.cap P.junk sg.1.cli r).2 = CrcvOut.body d l := by rw [← hs]; exact hb
+  obtain ⟨_, k2⟩ := b2Rsp_ghost P.cap P.junk sent sg.1.cli sg.2 r hgh.h
+  obtain ⟨k3, k4⟩ := k2 d l hb'
+  have hrel : (b2StepG P sg (B2Event.rspArrives j sent)).1.cli = none := by
+    show (b2Step P sg.1 (B2Event.rspArrives j sent)).cli = none
+    rw [e1]
+    exact crcvStepS_final_none _ _ _ _ _ _ (by rw [hb]; rfl)
+  refine ⟨hbl, ?_, hrel, ?_⟩
+  · intro o ho
+    obtain ⟨v, h1, h2⟩ := k4 o (by rw [hbl.2]; exact ho)
+    refine ⟨v, ?_, h2⟩
+    rw [← hbl.1, List.getElem?_take, if_pos (by rw [hbl.2]; exact ho)]
+    exact h1
+  · exact (b2StepG_ghost P hs sg (B2Event.rspArrives j sent) hgh).empty
+      (by intro c hc; rw [hrel] at hc; cases hc)
+
+/-- … hence a delivery needs block 0 to have arrived in the current epoch: replays of block responses none of which is
+block 0 (the LAST block in particular) never deliver, whatever was received in earlier lifetimes. -/
+theorem block2_replay_without_block0_never_delivers (P : B2Par) (hP : B2ParOK P) (hs : P.single = true)
+    (evs : List B2Event) (j : Nat) (sent : Bool) (r : Resp) :
+    let sg := evs.foldl (b2StepG P) ({}, [])
+    sg.1.rsps[j]? = some r → (∀ r', r' ∈ r :: sg.2 → numOf r' ≠ 0) →
+    ∀ d l, (crcvStepS sent P.single P.cap P.junk sg.1.cli r).2 ≠ CrcvOut.body d l := by
+  intro sg hq hno d l hb
+  obtain ⟨hinv, _⟩ := b2RunG_inv P hP hs evs ({}, []) (b2_init_inv P) (b2_init_ghost P)
+  obtain ⟨_, hall, _⟩ := at_most_once_block2_run P hP hs evs j sent r hq d l hb
+  obtain ⟨num, szx, k, g1, g2, _⟩ := hinv.rsp r (List.mem_of_getElem? hq)
+  have hpos : 0 < P.body.length := by
+    have := (lt_nBlocks_iff P.body.length szx num).mp g2
+    omega
+  obtain ⟨v, _, r', hr', n', m', s', hb', hle, _⟩ := hall 0 hpos
+  have h2 : 0 < 2 ^ (s' + 4) := Nat.two_pow_pos _
+  have h0 : n' = 0 := by
+    cases hn : n' with
+    | zero => rfl
+    | succ n =>
+      rw [hn] at hle
+      have h3 : 2 ^ (s' + 4) ≤ (n + 1) * 2 ^ (s' + 4) := Nat.le_mul_of_pos_left (2 ^ (s' + 4)) (Nat.succ_pos n)
+      omega
+  exact hno r' hr' (by unfold numOf; rw [hb', h0])
+
+/-- "At most once per GET" as far as the block layer can guarantee it: once the client holds no lg_crcv (the body was
+handed over, the transfer failed or timed out), NOTHING reaches the response handler and no lg_crcv appears along any
+continuation in which the application sends no new request with an lg_crcv (`cliNew`) and no response is matched to a request
+still queued — replays of ANY response datagrams (block 0, the last block, whole sequences, of any lg_xmit incarnation), in any
+number and order, requests and time-outs in between, included.  Both delivery modes. -/
+theorem block2_replays_after_completion_dropped (P : B2Par) (hP : B2ParOK P) (evs evs2 : List B2Event) :
+    let s := evs.foldl (b2Step P) {}
+    s.cli = none → (∀ e, e ∈ evs2 → e.unsolicited = true) →
+    (evs2.foldl (b2Step P) s).cli = none ∧ ∀ o, o ∈ (evs2.foldl (b2Step P) s).outs → o ∈ s.outs ∨ o = CrcvOut.skip := by
+  intro s hc hu
+  exact b2_unsolicited_run P hP evs2 s (b2Run_inv P hP evs {} (b2_init_inv P)) hc hu
+
+/-- the run of the first example continued: every response datagram replayed (unmatched) after the delivery, block 0 and
+the last block twice — only `skip`s are added, still one delivery, no lg_crcv; and the ghost along the run -/
+example :
+    let evs : List B2Event := [.appGet 0, .reqArrives 0, .rspArrives 0 true, .reqArrives 1, .rspArrives 1 true,
+      .reqArrives 2, .rspArrives 2 true]
+    let replay : List B2Event := [.rspArrives 0 false, .rspArrives 2 false, .rspArrives 1 false, .rspArrives 2 false,
+      .rspArrives 0 false]
+    let s := (evs ++ replay).foldl (b2Step (exPar true)) {}
+    s.outs = [.next 1 0, .next 2 0, .body (exPar true).body 40, .skip, .skip, .skip, .skip, .skip] ∧ s.cli = none ∧
+    (replay.all fun e => e.unsolicited) = true ∧
+    (((evs.take 5).foldl (b2StepG (exPar true)) ({}, [])).2.map numOf) = [1, 0] ∧
+    (evs.foldl (b2StepG (exPar true)) ({}, [])).2 = [] := by
+  decide +kernel
+
+/-- WITNESS that the `sent` flag matters (and why "once per GET" needs the message layer): a copy of block 0 that IS
+matched to a queued request after the transfer completed sets up a new lg_crcv — a new transfer, second delivery (D6) -/
+example :
+    let evs : List B2Event := [.appGet 0, .reqArrives 0, .rspArrives 0 true, .reqArrives 1, .rspArrives 1 true,
+      .reqArrives 2, .rspArrives 2 true, .rspArrives 0 true, .rspArrives 1 true, .rspArrives 2 true]
+    ((evs.foldl (b2Step (exPar true)) {}).outs.filter fun o => o.isFinal).length = 2 := by
   decide +kernel
 
 /-! ## Client: what the application's handlers see of a transfer libcoap runs under tokens of its own
